@@ -25,6 +25,9 @@ def scrape_literals():
 def clamp64(v):
     return max(I64MIN + 1, min(I64MAX, v))
 
+DERIVED = set()      # the part of the pool that is derived from constants (see boundary_values); large
+SQRT_LIMITS = sorted({__import__("math").isqrt(2**k) + d for k in (31, 32, 33, 47, 48, 62, 63, 64) for d in (-1, 0, 1)})
+
 def boundary_values(extra=()):
     """signed 64-bit boundary pool"""
     base = set()
@@ -44,6 +47,24 @@ def boundary_values(extra=()):
         if v < 2**47:
             base.add(v * 65536); base.add(v * 65536 + 1); base.add(v * 65536 - 1)
     base |= set(extra)
+    # boundaries derived from the constants of the source (integer literals and the translated constants):
+    # quotients of the limits by a constant (where constant * x reaches a limit), smallest multipliers whose product
+    # with the constant wraps past 2^64 (unsigned wrap to a small value), integer square roots of the limits
+    import math
+    derived = set()
+    for c in set(lits) | set(abs(int(e)) for e in extra):
+        if 2 <= c < 2**40:
+            for lim in (I64MAX, 2**63, 2**64, 2**47, F * 65536):
+                for d in (-1, 0, 1): derived.add(lim // c + d)
+            for m in (1, 2, 3):
+                q = -((-m * 2**64) // c)
+                derived.add(q); derived.add(q + 1); derived.add(q - 1)
+    for k in (31, 32, 33, 46, 47, 48, 62, 63, 64, 79, 80):
+        r = math.isqrt(2**k)
+        for d in (-2, -1, 0, 1, 2): derived.add(r + d)
+    new = {v for v in derived if 0 <= v < 2**64} - base
+    DERIVED.clear(); DERIVED.update(new); DERIVED.update(-v for v in new)
+    base |= new
     out = set()
     for v in base:
         for s in (v, -v):
@@ -110,6 +131,34 @@ TYPE_ALIAS = {"ll": "i64", "ull": "u64"}
 ALIAS_OF = {}
 for _a, _b in TYPE_ALIAS.items(): ALIAS_OF.setdefault(_b, []).append(_a)
 
+RE1 = {"neg", "abs", "isnan", "ceil", "floor", "sin", "cos", "tan", "atan"}
+RE2 = {"add", "sub", "mul", "div", "lt", "le", "gt", "ge", "eq", "ne", "atan2"}
+SELF = {"add": "addeq_self", "sub": "subeq_self", "mul": "muleq_self", "div": "diveq_self"}
+def reuse_lines(lines, rng, frac=0.04, cap=6000):
+    """call patterns: the same objects used twice with a store in between (re_<op>), compound assignment with the
+    object itself as right operand (<op>eq_self), integral conversions of one variable before and after a change"""
+    by_fn = {}
+    for l in lines:
+        h = l.split(" ", 1)[0]
+        by_fn.setdefault(h, []).append(l)
+    out = []
+    for h, ls in by_fn.items():
+        fn, _, tag = h.partition(":")
+        if tag == "" and (fn in RE1 or fn in RE2):
+            k = min(len(ls), max(20, int(len(ls) * frac)), cap // 10)
+            for l in rng.sample(ls, k):
+                o = rng.choice(ls)
+                out.append("re_%s %s %s" % (fn, " ".join(o.split()[1:]), " ".join(l.split()[1:])))
+        if tag == "" and fn in SELF:
+            for l in rng.sample(ls, min(len(ls), 200)):
+                for x in l.split()[1:]: out.append("%s %s" % (SELF[fn], x))
+        if fn in ("to_fixed", "from_fixed") and tag:
+            k = min(len(ls), 60)
+            for l in rng.sample(ls, k):
+                o = rng.choice(ls)
+                out.append("re_%s:%s %s %s" % (fn, tag, o.split()[1], l.split()[1]))
+    return out[:cap]
+
 def alias_lines(lines, rng, frac=0.34):
     """duplicate a share of the typed operation lines with the alias spelling of their type (all lines whose
     integral argument is at the edge of the type's range are always duplicated)"""
@@ -130,10 +179,24 @@ def alias_lines(lines, rng, frac=0.34):
                 out.append("%s:%s %s" % (fn, al, " ".join(args)))
     return out
 
-def type_values(rng, t, n, pool):
+def type_values(rng, t, n, pool, derived_cap=80, cap=None):
+    vals = _type_values(rng, t, n, pool, derived_cap)
+    if cap and len(vals) > cap:
+        lo, hi = int_type_range(t)
+        edge = {lo, lo + 1, hi, hi - 1, 0, 1, -1, 2, -2, 2**31 - 1, 2**31, -2**31, -2**31 - 1, 2**63 - 1, 2**63, 2**32 - 1, 2**32, 2**64 - 1}
+        for v in list(edge): edge |= {v + 1, v - 1}
+        vals = sorted((edge & set(vals)) | set(rng.sample(vals, cap)))
+    return vals
+
+def _type_values(rng, t, n, pool, derived_cap=80):
+    """values of the integral type t: limits, small values, the boundary pool (of its constant-derived part only a
+    sample of `derived_cap`, all of it when None), magnitude-stratified random"""
     lo, hi = int_type_range(t)
     vals = {lo, lo + 1, hi, hi - 1, 0, 1, 2, 3, 7, 100, 180, 360, 361}
-    vals |= {v for v in pool if lo <= v <= hi}
+    inr = [v for v in pool if lo <= v <= hi]
+    der = [v for v in inr if v in DERIVED]
+    vals |= {v for v in inr if v not in DERIVED}
+    vals |= set(der if derived_cap is None or len(der) <= derived_cap else rng.sample(der, derived_cap))
     vals |= {-1, -2, -3, -180} if lo < 0 else set()
     bits = int(t[1:])
     for _ in range(n):
